@@ -256,6 +256,19 @@ func c02Loop(l *core.Ledger, r *rt, rl *replyLoop) {
 		l.Check(ok && elemOK && dom, "C02-T2", k, a.Pos(), "errs = append(errs, nodeError{r.nid, r.err}) on the error edge",
 			fmt.Sprintf("error accounting broken: extends the loop's slice: %v, element is nodeError{nodeID: r.nid, cause: r.err}: %v, only on the r.err != nil edge: %v", ok, elemOK, dom))
 	}
+	// at most one record per received response
+	for i, a := range apps {
+		if _, again := sx.Reach(sx.NodeOf(a), func(n sx.Node) bool {
+			for _, b := range apps {
+				if b == n.Instr() {
+					return true
+				}
+			}
+			return false
+		}, sx.Query{BlockNode: func(n sx.Node) bool { return n == selNode }}); again {
+			l.Bad("C02-T2", fmt.Sprintf("%s/err-append%d/once", key, i), a.Pos(), "one received error can be appended to the error slice more than once: a failing node contributes several errors and exhaustion is declared too early")
+		}
+	}
 	// every error must be recorded: from the error edge, the next wait/exit is preceded by an append
 	for _, e := range errEdges {
 		isApp := func(n sx.Node) bool {
